@@ -17,17 +17,18 @@ impl Connection {
     /// C04: the configured maximum frame length is within the allocation budget the decoders are verified against
     pub closed spec fn budget_ok(&self) -> bool { self.max_packet_length <= alloc_budget() }
     pub closed spec fn ev(&self) -> Seq<Ev> { self.stream.ev@ }
+    pub closed spec fn locale(&self) -> Option<Seq<char>> { opt_str(self.client_locale) }
 }
 
 pub open spec fn ka_kind(e: Ev) -> bool { e is Tick || e matches Ev::Send(Sent::KeepAlive { .. }) }
 
 /// what `receive_packet(true)` may append to the event log
-pub open spec fn recv_ka(old_ev: Seq<Ev>, new_ev: Seq<Ev>, ok_id: Option<VarInt>, missed: bool) -> bool {
+pub open spec fn recv_ka(old_ev: Seq<Ev>, new_ev: Seq<Ev>, ok: Option<(VarInt, Seq<u8>)>, missed: bool, locale: Option<Seq<char>>) -> bool {
     &&& extends(old_ev, new_ev)
     &&& forall |i: int| old_ev.len() <= i < new_ev.len() ==> (#[trigger] ka_kind(new_ev[i])
-            || (i == new_ev.len() - 1 && (ok_id matches Some(id) && new_ev[i] == Ev::Recv(id)))
-            || (i == new_ev.len() - 1 && missed && (new_ev[i] matches Ev::Send(Sent::Disconnect { .. }))))
-    &&& (ok_id matches Some(id) ==> new_ev.len() > old_ev.len() && new_ev.last() == Ev::Recv(id))
+            || (i == new_ev.len() - 1 && (ok matches Some(f) && new_ev[i] == Ev::Recv(f.0, f.1)))
+            || (i == new_ev.len() - 1 && missed && timeout_disc(new_ev[i], locale)))
+    &&& (ok matches Some(f) ==> new_ev.len() > old_ev.len() && new_ev.last() == Ev::Recv(f.0, f.1))
 }
 
 pub open spec fn ka_mid_kind(e: Ev) -> bool { ka_kind(e) || e is Recv || e is Echo }
@@ -38,10 +39,10 @@ pub open spec fn ka_mid(old_ev: Seq<Ev>, new_ev: Seq<Ev>) -> bool {
 }
 /// what serving keep-alives (`keep_alive()`, the client-information loop) may append: ticks, keep-alives, frames
 /// taken from the client, echoes, and at the very end the timeout Disconnect
-pub open spec fn ka_service(old_ev: Seq<Ev>, new_ev: Seq<Ev>) -> bool {
+pub open spec fn ka_service(old_ev: Seq<Ev>, new_ev: Seq<Ev>, locale: Option<Seq<char>>) -> bool {
     &&& extends(old_ev, new_ev)
     &&& forall |i: int| old_ev.len() <= i < new_ev.len() ==> (#[trigger] ka_mid_kind(new_ev[i])
-            || (i == new_ev.len() - 1 && (new_ev[i] matches Ev::Send(Sent::Disconnect { .. }))))
+            || (i == new_ev.len() - 1 && timeout_disc(new_ev[i], locale)))
 }
 
 pub proof fn lemma_outstanding_push(ev: Seq<Ev>, e: Ev)
